@@ -68,3 +68,44 @@ def ddp_config(ds, comm, G, communicate_params):
 
 def divisors(n):
     return [d for d in range(1, n + 1) if n % d == 0]
+
+
+def collect_placement(opt, params):
+    """{(param index, block key): [local numel of each state tensor]} on the calling rank (public optimizer.state surface)"""
+    placement = {}
+    for j, p in enumerate(params):
+        st = opt.state.get(p, {})
+        for k, v in st.items():
+            if isinstance(k, str) and "block_" in k and isinstance(v, dict):
+                sizes = []
+                for name in ("adagrad", "momentum", "filtered_grad"):
+                    if name in v:
+                        t_ = v[name]
+                        sizes.append(int((t_.to_local() if hasattr(t_, "to_local") else t_).numel()))
+                sh = v.get("shampoo")
+                if sh is not None:
+                    for attr in ("factor_matrices", "inv_factor_matrices", "factor_matrices_eigenvectors"):
+                        for t_ in getattr(sh, attr, ()):
+                            sizes.append(int((t_.to_local() if hasattr(t_, "to_local") else t_).numel()))
+                    ce = getattr(sh, "corrected_eigenvalues", None)
+                    if ce is not None:
+                        sizes.append(int((ce.to_local() if hasattr(ce, "to_local") else ce).numel()))
+                placement[(j, k)] = sizes
+    return placement
+
+
+def live_buffer_geometry(opt):
+    """byte-level geometry of the live distributor's communication buffers (private attribute names; None if they moved)"""
+    out = []
+    try:
+        for sl in opt._per_group_state_lists:
+            d = sl["distributor"]
+            g = d._global_dist_buffer
+            base = g.data_ptr()
+            total = g.numel() * g.element_size()
+            views = [(v.data_ptr() - base, v.numel() * v.element_size(), v.untyped_storage().data_ptr() == g.untyped_storage().data_ptr()) for v in d._global_dist_blocked_buffers]
+            loc = d._local_dist_buffer
+            out.append({"total": total, "views": views, "local": (loc.data_ptr() - base, loc.numel() * loc.element_size()), "block_bytes": [b.numel() for b in d._global_blocked_params]})
+    except (AttributeError, KeyError):
+        return None
+    return out
